@@ -59,6 +59,11 @@ def run(ctx) -> None:
         floor=2,
     )
     RL = ctx.rule("C04/one-lock-object", "the observer lock is created once (in __init__) and never rebound", floor=1)
+    RU = ctx.rule("C04/detached-handlers-are-unregistered", "unschedule_all() — documented to detach all handlers — empties the handler registry wholesale on every normal path: a handler it leaves behind is called for the events of an equal watch scheduled later, a watch it is no longer registered for (instance shared with C05)", floor=1)
+    from ..threads import ThreadCfg as _TC
+    from .c05 import registry_emptied
+
+    registry_emptied(ctx, RU, P, _TC(P, no_inline={"join", "is_alive", "dispatch", "queue_events", "BaseThread.start"}, follow_attrs=False))
 
     TABLED = {
         "__init__": "object not yet shared with another thread",
